@@ -155,7 +155,7 @@ def write_tmp(lines):
 
 
 def gen_cases(tier, seed):
-    n = 260 if tier == "quick" else 4000
+    n = 260 if tier == "quick" else 20000
     cases = [{"kind": "gen", "rs": f"C20:{seed}:{i}"} for i in range(n)]
     for f in sorted(glob.glob("/repo/tests/*.graph") + glob.glob("/repo/tests/*/*.graph")):
         try:
